@@ -52,9 +52,16 @@ pub struct Seed {
 pub const VALS: [&str; 10] = ["0", "1", "2^31-1", "2^31", "2^32-1", "field-1", "field+1", "file_len", "file_len-1", "file_len+1"];
 /// the thorough ladder: VALS, then the boundaries of 8- and 16-bit wide sub-fields (low half, high half),
 /// and "rest" = number of bytes that follow the field in the file (the largest size/count x 1 that still fits) and one more
-pub const VALS_T: [&str; 20] = [
-    "0", "1", "2^31-1", "2^31", "2^32-1", "field-1", "field+1", "file_len", "file_len-1", "file_len+1", "2", "255", "256", "2^15", "2^16-1", "2^16", "2^16-1<<16", "2^30", "rest", "rest+1",
+pub const VALS_T: [&str; 23] = [
+    "0", "1", "2^31-1", "2^31", "2^32-1", "field-1", "field+1", "file_len", "file_len-1", "file_len+1", "2", "255", "256", "2^15", "2^16-1", "2^16", "2^16-1<<16", "2^30", "rest", "rest+1", "2^20",
+    "2^24", "2^26",
 ];
+/// number of leading VALS_T entries every format takes in thorough; the remaining ones (counts between the
+/// library's entry limits and the 32-bit multiplication overflow) are taken by the formats with table counts (mpq)
+pub const VALS_T_COMMON: usize = 20;
+/// value set of the 3-deviation class: thorough {0, 2^26, 2^32-1, file_len, field+1, 2^31}, quick {2^26, 2^32-1, file_len}
+pub const VALS3_T: [usize; 6] = [0, 22, 4, 7, 6, 3];
+pub const VALS3_Q: [usize; 3] = [22, 4, 7];
 /// value subset of the 2-deviation space
 pub const VALS2: [usize; 6] = [0, 4, 2, 3, 6, 7];
 /// value subset of the 2-deviation space over neighbouring header-level fields (thorough)
@@ -74,6 +81,9 @@ pub fn value(vi: usize, orig: u32, file_len: usize, site_off: usize) -> u32 {
         17 => 0x4000_0000,
         18 => file_len.saturating_sub(site_off + 4) as u32,
         19 => (file_len.saturating_sub(site_off + 4) as u32).wrapping_add(1),
+        20 => 1 << 20,
+        21 => 1 << 24,
+        22 => 1 << 26,
         0 => 0,
         1 => 1,
         2 => 0x7FFF_FFFF,
@@ -104,6 +114,8 @@ pub enum Dev {
     ChunkDel2(usize, usize),
     /// thorough: bytes appended behind the end of the file
     Append(usize),
+    /// three header fields deviate together (sites, value indices)
+    Field3 { s: [usize; 3], v: [usize; 3] },
 }
 
 /// consistent payload resizes of a chunk
@@ -281,6 +293,20 @@ impl Seed {
                 self.fix_parents(&mut out, c.parent, -((c.total + d.total) as i64));
                 Some(out)
             }
+            Dev::Field3 { s, v } => {
+                let mut out = b.clone();
+                for k in 0..3 {
+                    let site = &self.sites[s[k]];
+                    let orig = self.site_value(b, site);
+                    let val = value(v[k], orig, b.len(), site.off);
+                    if val == orig {
+                        // a triple with an unchanged member is a 1- or 2-deviation case
+                        return None;
+                    }
+                    self.set_site(&mut out, site, val);
+                }
+                Some(out)
+            }
             Dev::Append(k) => {
                 let (fill, n) = APPENDS[*k];
                 let mut out = b.clone();
@@ -313,6 +339,7 @@ impl Seed {
             Dev::ChunkResize(k, m) => json!({"kind": "chunk_resize", "chunk": self.chunk_name(*k), "payload": RESIZES[*m], "of": self.chunks[*k].total - 8}),
             Dev::ChunkSwap2(x, y) => json!({"kind": "chunk_swap", "chunk": self.chunk_name(*x), "chunk2": self.chunk_name(*y)}),
             Dev::ChunkDel2(x, y) => json!({"kind": "chunk_delete2", "chunk": self.chunk_name(*x), "chunk2": self.chunk_name(*y)}),
+            Dev::Field3 { s, v } => json!({"kind": "field3", "site": site(s[0]), "value": VALS_T[v[0]], "site2": site(s[1]), "value2": VALS_T[v[1]], "site3": site(s[2]), "value3": VALS_T[v[2]]}),
             Dev::Append(k) => json!({"kind": "append", "fill": APPENDS[*k].0, "len": APPENDS[*k].1, "to": self.bytes.len()}),
         }
     }
@@ -378,6 +405,9 @@ pub struct SeedSpace {
     pub near_vals: Vec<usize>,
     /// thorough: number of trailing-data cases
     pub appends: usize,
+    /// sites of the 3-deviation class (all triples x triple_vals^3); empty for most seeds
+    pub triple_sites: Vec<usize>,
+    pub triple_vals: Vec<usize>,
 }
 
 impl SeedSpace {
@@ -392,6 +422,14 @@ impl SeedSpace {
             + self.pairs() * (VALS2.len() * VALS2.len()) as u64
             + self.near_cases()
             + self.appends as u64
+            + self.triple_cases()
+    }
+    pub fn triples(&self) -> u64 {
+        let n = self.triple_sites.len() as u64;
+        if n < 3 { 0 } else { n * (n - 1) * (n - 2) / 6 }
+    }
+    pub fn triple_cases(&self) -> u64 {
+        self.triples() * (self.triple_vals.len() as u64).pow(3)
     }
     pub fn field_cases(&self) -> u64 {
         let near = self.far_from.min(self.field_sites.len());
@@ -439,7 +477,27 @@ impl SeedSpace {
                 return Dev::Field2 { a, va: self.near_vals[(vi / nn) as usize], b, vb: self.near_vals[(vi % nn) as usize] };
             }
             i -= self.near_cases();
-            return Dev::Append(i as usize);
+            if i < self.appends as u64 {
+                return Dev::Append(i as usize);
+            }
+            i -= self.appends as u64;
+            let k = self.triple_vals.len() as u64;
+            let (mut t, vi) = (i / (k * k * k), i % (k * k * k));
+            let n = self.triple_sites.len();
+            for a in 0..n {
+                for b in a + 1..n {
+                    let rest = (n - b - 1) as u64;
+                    if t < rest {
+                        let c = b + 1 + t as usize;
+                        return Dev::Field3 {
+                            s: [self.triple_sites[a], self.triple_sites[b], self.triple_sites[c]],
+                            v: [self.triple_vals[(vi / (k * k)) as usize], self.triple_vals[(vi / k % k) as usize], self.triple_vals[(vi % k) as usize]],
+                        };
+                    }
+                    t -= rest;
+                }
+            }
+            unreachable!("triple index beyond the class");
         }
         let pair = i / vv;
         let vi = i % vv;
